@@ -23,7 +23,7 @@ func init() {
 		Fn:          c15,
 		Level:       "exploration",
 		Builds:      []string{"default", "purego"},
-		Rule:        "the same driver source is compiled with and without -tags purego; for every catalogue column built on a two-variant codec (32 generated + Bool + UUID, plus Point/Interval/wrappers that sit on them) it decodes generated raw inputs (exhaustive: every value of 8- and 16-bit element types, every input byte 0..255 for Bool; boundary+random limbs for wider ones; row counts 0,1,2,3,7,8,9,1000; inputs short by 1..size bytes; columns of 3 x 128 KiB cut at 0, 1, 4 KiB, 64 KiB, 128 KiB +-1, 256 KiB, 384 KiB and just before the end; errors are compared by class nil / io.EOF / io.ErrUnexpectedEOF / other) into {fresh, used-then-reset} columns and re-encodes through EncodeColumn into {empty, junk-prefixed 1..17 B} buffers and WriteColumn+Flush (prefix chained, writer buffer pre-filled before NewWriter, bytes appended directly between two columns); each step appends a transcript line (case id -> hash of bytes / values / error class); the parent aligns both transcripts by case id. Non-trivial = >=1 row; distinct = transcript case ids with rows>0",
+		Rule:        "the same driver source is compiled with and without -tags purego; for every catalogue column built on a two-variant codec (32 generated + Bool + UUID, plus Point/Interval/wrappers that sit on them) it decodes generated raw inputs (exhaustive: every value of 8- and 16-bit element types, every input byte 0..255 for Bool, and one out-of-domain byte at every position of Bool columns of 7..65 rows; boundary+random limbs for wider ones; row counts 0,1,2,3,7,8,9,1000; inputs short by 1..size bytes; columns of 3 x 128 KiB cut at 0, 1, 4 KiB, 64 KiB, 128 KiB +-1, 256 KiB, 384 KiB and just before the end; errors are compared by class nil / io.EOF / io.ErrUnexpectedEOF / other) into {fresh, used-then-reset} columns and re-encodes through EncodeColumn into {empty, junk-prefixed 1..17 B} buffers and WriteColumn+Flush (prefix chained, writer buffer pre-filled before NewWriter, bytes appended directly between two columns); each step appends a transcript line (case id -> hash of bytes / values / error class); the parent aligns both transcripts by case id. Non-trivial = >=1 row; distinct = transcript case ids with rows>0",
 		Assumptions: []string{"error classes compared are {nil, short read, bad value}; after a failed decode only the error class is compared", "ColRawOf exists only in the default build and is excluded"},
 		MinDistinct: 500,
 		Post:        c15Post,
@@ -112,6 +112,22 @@ func c15(r *core.Run) {
 					// one byte at a time: a bad value must not hide the others
 					for v := 0; v < 256; v++ {
 						c15Codec(t, r, e, ty, fmt.Sprintf("%03d|%s|%s|byte=%d", ei, e.Type, e.Kind, v), []byte{byte(v)}, 1, 3)
+					}
+					// one out-of-domain byte at every position of longer columns (word-at-a-time
+					// validation must look at every lane)
+					if ty.Base == "Bool" {
+						for _, rows := range []int{7, 8, 9, 16, 24, 33, 64, 65} {
+							for p := 0; p < rows; p++ {
+								for _, bad := range []byte{2, 0x40, 0x80, 0xff} {
+									raw := make([]byte, rows)
+									for i := range raw {
+										raw[i] = byte((i + p) & 1)
+									}
+									raw[p] = bad
+									c15Decode(t, e, fmt.Sprintf("%03d|%s|%s|rows=%d|bad=%#x@%d", ei, e.Type, e.Kind, rows, bad, p), raw, rows, p%2 == 0, true)
+								}
+							}
+						}
 					}
 				} else {
 					c15Codec(t, r, e, ty, fmt.Sprintf("%03d|%s|%s|all-8bit", ei, e.Type, e.Kind), raw, 256, 5)
